@@ -4,8 +4,11 @@ C12 — Shard loading, idle unloading and collection deletion are safe and deadl
 All theorems but the witness are about `Reachable .repaired`: every state the repaired shard manager
 model can reach from an empty manager (with any shard directories already on disk), for ANY number
 of DoWithShard calls, DeleteCollectionShards calls, shards and collections arriving at any time, the
-idle timer of every loaded shard firing at any moment, and every interleaving at the granularity of
-single lock / map / channel / file-system operations.
+idle timer of every loaded shard firing at any moment, LOADS THAT FAIL (the environment may at any
+time make the database file of a shard directory unopenable — `Act.corrupt` — or put a non-directory
+at the path of a shard directory — `Act.block` —, or make an unopenable file openable again —
+`Act.repair`; `shard.NewShard` / `os.MkdirAll` return an error inside loadShard while `bad` / `blocked`), and every interleaving at the granularity of single lock / map / channel /
+file-system operations.
 -/
 import SemaModel.C12.Helpers
 import SemaModel.C12.Skeleton
@@ -190,7 +193,9 @@ theorem C12_deadlock_free {s : St} (h : Reachable .repaired s)
         have hw := noWriter o _ (List.getElem?_eq_getElem this)
         simp [List.getElem?_eq_getElem this, hw]
       case dlRemove d r => split <;> simp
-      all_goals (exfalso; exact h3 ⟨t, _, _, ht, rfl⟩)
+      all_goals first
+        | (exfalso; exact h3 ⟨t, _, _, ht, rfl⟩)
+        | (split <;> simp)   -- rqMkdir / rqOpen: both outcomes (success, failed load) are steps
   | none =>
     -- 5. nothing is held at all: every busy thread is enabled
     obtain ⟨t, pc, ht, hbz⟩ := hb
@@ -242,6 +247,110 @@ theorem C12_deadlock_witness_pinned :
 
 /-- the same schedule does not deadlock the repaired model -/
 example : Deadlocked .repaired (runSched .repaired (St.init []) witnessPrefix).1 = false := by decide
+
+/-! ## Failed loads (the shard directory cannot be created / the database file cannot be opened) -/
+
+/-- A load that fails leaves nothing behind: the request goes to loadShard's deferred unlock with the
+store map, the loaded-shard objects, the open-handle counts, the directories and the lock owner
+unchanged — no half-registered shard, no handle. (No reachability hypothesis: this is the step itself.) -/
+theorem C12_failed_load_clean {s : St} {t : Tid} {d : Dir}
+    (ht : (s.thr[t]? = some (.rqOpen d) ∧ s.bad d = true) ∨ (s.thr[t]? = some (.rqMkdir d) ∧ s.blocked d = true)) :
+    ∃ s', step .repaired s (.run t) = some s' ∧ s'.thr[t]? = some .rqLoadErr ∧
+      s'.store = s.store ∧ s'.objs = s.objs ∧ s'.opens = s.opens ∧ s'.lock = s.lock ∧ s'.dirs = s.dirs := by
+  rcases ht with ⟨h1, h2⟩ | ⟨h1, h2⟩
+  · have hlt : t < s.thr.length := (List.getElem?_eq_some_iff.mp h1).1
+    exact ⟨s.setPc t .rqLoadErr, by simp [step, h1, stepPc, h2], by simp [St.setPc, hlt], rfl, rfl, rfl, rfl, rfl⟩
+  · have hlt : t < s.thr.length := (List.getElem?_eq_some_iff.mp h1).1
+    exact ⟨s.setPc t .rqLoadErr, by simp [step, h1, stepPc, h2], by simp [St.setPc, hlt], rfl, rfl, rfl, rfl, rfl⟩
+
+/-- After a failed load the deferred `shardLock.Unlock()` runs: the request holds `shardLock`, its step
+is enabled whatever the other threads do, it frees the lock and the call returns the error; store,
+objects and handle counts stay as they are. So `shardLock` is free for every later DoWithShard and
+DeleteCollectionShards (a code change that returns on this path without unlocking is exactly the hang
+"one unopenable shard blocks the whole manager"). -/
+theorem C12_load_error_releases {s : St} (h : Reachable .repaired s) {t : Tid}
+    (ht : s.thr[t]? = some .rqLoadErr) :
+    s.lock = some t ∧ ∃ s', step .repaired s (.run t) = some s' ∧ s'.lock = none ∧
+      s'.thr[t]? = some (.done .err) ∧ s'.store = s.store ∧ s'.objs = s.objs ∧ s'.opens = s.opens := by
+  have I := inv_reachable h
+  have hlt : t < s.thr.length := (List.getElem?_eq_some_iff.mp ht).1
+  refine ⟨I.lockA t _ ht rfl, ({ s with lock := none } : St).setPc t (.done .err), by simp [step, ht, stepPc], rfl, ?_, rfl, rfl, rfl⟩
+  simp [St.setPc, hlt]
+
+/-- A call that has returned (with a result or with an error — in particular after a failed load)
+and a cleanup goroutine that has exited hold nothing: not `shardLock`, no writer slot of any `ls.mu`,
+no read lock, no place in a reader queue. -/
+theorem C12_returned_holds_nothing {s : St} (h : Reachable .repaired s) {t : Tid} {pc : PC}
+    (ht : s.thr[t]? = some pc) (hd : (∃ r, pc = .done r) ∨ pc = .exited) :
+    s.lock ≠ some t ∧
+    ∀ (o : Oid) (ob : Obj), s.objs[o]? = some ob → ob.wr ≠ some t ∧ t ∉ ob.readers ∧ t ∉ ob.rwait := by
+  have I := inv_reachable h
+  have nh : holdsStore pc = false ∧ wslot pc = none ∧ rslot pc = none ∧ (∀ o, pc ≠ .rqRWait o) := by
+    rcases hd with ⟨r, rfl⟩ | rfl <;> simp [holdsStore, wslot, rslot]
+  refine ⟨?_, ?_⟩
+  · intro hl
+    obtain ⟨pc', hpc', hh⟩ := I.lockB t hl
+    rw [ht] at hpc'; cases hpc'
+    rw [nh.1] at hh; cases hh
+  · intro o ob hob
+    refine ⟨?_, ?_, ?_⟩
+    · intro hw
+      obtain ⟨pc', hpc', hh⟩ := I.wrB o ob t hob hw
+      rw [ht] at hpc'; cases hpc'
+      rw [nh.2.1] at hh; cases hh
+    · intro hr
+      obtain ⟨pc', hpc', hh⟩ := I.rdB o ob t hob hr
+      rw [ht] at hpc'; cases hpc'
+      rcases hh with hh | hh
+      · rw [nh.2.2.1] at hh; cases hh
+      · exact nh.2.2.2 o hh
+    · intro hr
+      have := (I.rwB o ob t hob hr).2.2
+      rw [ht] at this; cases this
+      exact nh.2.2.2 o rfl
+
+/-- non-vacuity, and the three statements on concrete runs: (a) the database file of shard (0,0) is
+garbage: the request on it returns the error after 5 steps, a later request on shard (0,1) loads and
+runs its callback, `shardLock` is free, nothing was opened or stored for (0,0); -/
+example :
+    let a : List Act := [.corrupt (0,0), .newReq (0,0)] ++ List.replicate 5 (.run 0) ++ [.newReq (0,1)] ++ List.replicate 11 (.run 1)
+    let s := (runSched .repaired (St.init []) a).1
+    (runSched .repaired (St.init []) a).2 = a.length ∧ s.thr[0]? = some (.done .err) ∧ s.thr[1]? = some (.done .ok) ∧
+    s.lock = none ∧ s.store (0,0) = none ∧ s.opens (0,0) = 0 ∧ s.opens (0,1) = 1 := by decide
+
+/-- (b) the state right after the failed open: the request sits at the deferred unlock holding `shardLock`
+(hypothesis of `C12_load_error_releases`), a second request cannot pass `load.lockStore` until it has run; -/
+example :
+    let a : List Act := [.corrupt (0,0), .newReq (0,0)] ++ List.replicate 4 (.run 0) ++ [.newReq (0,1)]
+    let s := (runSched .repaired (St.init []) a).1
+    Reachable .repaired s ∧ s.thr[0]? = some .rqLoadErr ∧ s.lock = some 0 ∧
+    (step .repaired s (.run 1)).isSome = false ∧ (step .repaired s (.run 0)).isSome = true := by
+  refine ⟨reachable_runSched _ _, ?_⟩
+  decide
+
+/-- (c) a collection deletion removes the garbage file with its directory: the next request on the same
+shard creates a fresh database and succeeds; (d) a non-directory at the shard path: `MkdirAll` fails,
+the request returns the error after 4 steps, other shards are unaffected. -/
+example :
+    let a : List Act := [.corrupt (0,0), .newReq (0,0)] ++ List.replicate 5 (.run 0) ++ [.newDel 0] ++ List.replicate 6 (.run 1) ++
+      [.newReq (0,0)] ++ List.replicate 11 (.run 2)
+    let s := (runSched .repaired (St.init []) a).1
+    (runSched .repaired (St.init []) a).2 = a.length ∧ s.thr[0]? = some (.done .err) ∧ s.thr[1]? = some (.done .ok) ∧
+    s.thr[2]? = some (.done .ok) ∧ s.bad (0,0) = false ∧ s.opens (0,0) = 1 ∧ s.lock = none := by decide
+
+example :
+    let a : List Act := [.block (0,0), .newReq (0,0)] ++ List.replicate 4 (.run 0) ++ [.newReq (0,1)] ++ List.replicate 11 (.run 1)
+    let s := (runSched .repaired (St.init []) a).1
+    (runSched .repaired (St.init []) a).2 = a.length ∧ s.thr[0]? = some (.done .err) ∧ s.thr[1]? = some (.done .ok) ∧
+    s.lock = none ∧ s.dirs = [(0,1)] := by decide
+
+/-- (e) a transient failure: the request fails while the file is garbage; once the file is repaired the
+next request on the same shard loads it and runs its callback (nothing of the failure is remembered) -/
+example :
+    let a : List Act := [.corrupt (0,0), .newReq (0,0)] ++ List.replicate 5 (.run 0) ++ [.repair (0,0), .newReq (0,0)] ++ List.replicate 11 (.run 1)
+    let s := (runSched .repaired (St.init []) a).1
+    (runSched .repaired (St.init []) a).2 = a.length ∧ s.thr[0]? = some (.done .err) ∧ s.thr[1]? = some (.done .ok) ∧
+    s.store (0,0) = some 0 ∧ s.opens (0,0) = 1 ∧ s.lock = none := by decide
 
 /-! ## Reload -/
 
